@@ -88,13 +88,35 @@ def _surplus(r, name):
     return getattr(r, name)()
 
 
-def run_case(chunks, plans, via_slice=0):
+def _foreign_unsanitised_writer(chunks):
+    """Another writer, sanitisation OFF, writes the same fields first (and stays alive): what one writer was asked to do
+    must not leak into a different writer that IS sanitising."""
+    W = loader.lib("eolib.data.eo_writer").EoWriter
+    w = W()
+    for chunk in chunks:
+        for kind, v in chunk:
+            try:
+                if kind == "fstr":
+                    w.add_fixed_string(v, 2)
+                elif kind == "str":
+                    w.add_string(v)
+                elif kind == "estr":
+                    w.add_encoded_string(v)
+            except Exception:  # noqa: BLE001 - the foreign writer is only context
+                pass
+    return w
+
+
+def run_case(chunks, plans, via_slice=0, foreign=0):
     """chunks: list of field tuples; plans: one (prefix_len, surplus ops) per chunk.
+    foreign: 1 = an unsanitised writer writes the same strings before the sanitising writer does.
     via_slice: 0 = read directly; 1 = read everything through parent.slice() taken while the parent is in chunked mode;
     2 = read chunk 0 on the parent, next_chunk, then read the rest through parent.slice()."""
     R = loader.lib("eolib.data.eo_reader").EoReader
     try:
+        keep = _foreign_unsanitised_writer(chunks) if foreign else None
         data = write_chunks(chunks)
+        del keep
     except Exception as e:  # noqa: BLE001
         return f"writing raised {type(e).__name__}: {e}"
     if data.count(b"\xff") != len(chunks) - 1:
@@ -151,7 +173,43 @@ def _shard(shard):
     return count, len(lists), bad
 
 
-LADDER = (8, 16, 23, 24, 25, 32, 64, 128, 256, 300)
+def _full_plans(chunks):
+    return [(len(c), ()) for c in chunks]
+
+
+def _char_shard(job):
+    """Every string of the character alphabet (mc/charsweep.py) as a trailing and as an encoded string inside the first
+    two of three chunks: the output must contain exactly two break bytes and every chunk must read back."""
+    from .. import charsweep
+
+    loader.install_shims()
+    count, bad = 0, []
+    for s in charsweep.strings(job):
+        # '~' is the one character an encoded string cannot carry (excluded by the statement's sibling C04): plain there
+        chunks = [(("char", 7), ("str", s)), (("short", 253), ("estr" if "~" not in image(s) else "str", s)), (("int", P4 - 1),)]
+        for plans in (_full_plans(chunks), [(1, ()), (1, ("get_int",)), (1, ())]):
+            count += 1
+            w = run_case(chunks, plans)
+            if w and len(bad) < 3:
+                bad.append(({"chunks": [list(map(list, c)) for c in chunks], "plans": [[k, list(p)] for k, p in plans]}, w))
+    return count, 0, bad
+
+
+def _foreign_shard(lists):
+    """Chunk lists written by a sanitising writer AFTER an unsanitised writer wrote the same strings (fresh process per
+    shard, so the foreign writer really is the first to see each string)."""
+    loader.install_shims()
+    count, bad = 0, []
+    for chunks in lists:
+        for plans in (_full_plans(chunks), [(0, ("get_int",)) for _ in chunks]):
+            count += 1
+            w = run_case(chunks, plans, 0, 1)
+            if w and len(bad) < 3:
+                bad.append(({"chunks": [list(map(list, c)) for c in chunks], "plans": [[k, list(p)] for k, p in plans], "foreign": 1}, "(an unsanitised writer wrote the same strings first) " + w))
+    return count, 0, bad
+
+
+LADDER = (8, 16, 23, 24, 25, 32, 64, 128, 256, 300, 1025, 65537)
 
 
 def ladder_cases():
@@ -185,6 +243,15 @@ def run(tier, seed):
     three = [t for t in itertools.product(redq if quick else red[:3] + red[-9:], repeat=3)]
     jobs += [(c, SURPLUS_RED, 1) for c in par.chunks(three, W)]
     res = par.pmap(_shard, jobs)
+    from .. import charsweep
+
+    res_chars = par.pmap(_char_shard, charsweep.jobs(tier))
+    char_n = sum(r[0] for r in res_chars)
+    res += res_chars
+    foreign_lists = [(a,) for a in full] + two
+    res_foreign = par.pmap(_foreign_shard, par.chunks(foreign_lists, W))
+    foreign_n = sum(r[0] for r in res_foreign)
+    res += res_foreign
     lad = ladder_cases()
     lad_bad = []
     for chunks, plans in lad:
@@ -206,6 +273,9 @@ def run(tier, seed):
         "evaluations": count,
         "distinct_nontrivial": count - 1,
         "chunk_lists": nlists,
+        "character_sweep_cases": char_n,
+        "character_sweep_strings": charsweep.total(),
+        "after_foreign_unsanitised_writer_cases": foreign_n,
         "chunk_contents_full": len(full),
         "chunk_contents_reduced": len(red),
         "exhaustive": True,
@@ -213,7 +283,7 @@ def run(tier, seed):
         "1 chunk over all contents, 2 chunks over full x reduced contents, 3 chunks over reduced contents; every plan = per "
         "chunk every prefix length x every sequence of <=2 surplus reads, then next_chunk; in-prefix reads must equal the "
         "written (sanitised cp1252) values, surplus reads after a complete prefix must be 0/empty, the output contains "
-        "exactly chunks-1 break bytes; three-chunk lists are also read through parent.slice() (taken at the start / after the first chunk); plus a length ladder: strings of 8..300 characters containing a y-diaeresis in the first of three chunks",
+        "exactly chunks-1 break bytes; three-chunk lists are also read through parent.slice() (taken at the start / after the first chunk); plus a length ladder: strings of 8..65537 characters containing a y-diaeresis in the first of three chunks; plus the character sweep: every Unicode code point U+0000..U+10FFFF as a one-character string and every (windows-1252 character, combining mark) pair as a trailing and an encoded string in the first two of three chunks; plus every one- and two-chunk list written after a different, unsanitised writer wrote the same strings",
         "samples": [{"chunks": [[["char", 252], ["str", "ÿ"]], [], [["int", P4 - 1]]], "plans": [[1, ["get_int"]], [0, ["get_string"]], [1, []]]}],
     }
     return {"coverage": coverage, "violations": violations}
@@ -223,4 +293,4 @@ def replay(case):
     loader.install_shims()
     chunks = [tuple((k, v) for k, v in c) for c in case["chunks"]]
     plans = [(int(k), tuple(s)) for k, s in case["plans"]]
-    return run_case(chunks, plans, int(case.get("via_slice", 0)))
+    return run_case(chunks, plans, int(case.get("via_slice", 0)), int(case.get("foreign", 0)))
